@@ -295,16 +295,50 @@ def code_projection(out):
     return out
 
 
+_HANGS = 0
+
+
 def evaluate(prop, cases):
     """impl + model + monitor for a list of cases. Returns list of records."""
     import contextlib
     import io as _io
     recs = []
     lines = []
+    import signal
+    import threading
+
+    class _Hang(BaseException):
+        pass
+
+    def _alarm(_sig, _frm):
+        raise _Hang()
+    use_alarm = threading.current_thread() is threading.main_thread() and hasattr(signal, 'setitimer')
+    limit = float(os.environ.get('VERIF_CASE_TIMEOUT', '20'))
+    global _HANGS
     for c in cases:
+        if _HANGS >= 3:
+            # three calls did not return: the verdict is settled, the remaining cases of this run are not started
+            io = {'not_started_after_three_calls_that_did_not_return': True}
+            line = dict(c)
+            line['impl'] = io
+            lines.append(line)
+            recs.append({'case': c, 'impl': io})
+            continue
         try:
-            with contextlib.redirect_stdout(_io.StringIO()):
-                io = prop.impl(c)
+            if use_alarm:
+                prev = signal.signal(signal.SIGALRM, _alarm)
+                signal.setitimer(signal.ITIMER_REAL, limit)
+            try:
+                with contextlib.redirect_stdout(_io.StringIO()):
+                    io = prop.impl(c)
+            finally:
+                if use_alarm:
+                    signal.setitimer(signal.ITIMER_REAL, 0)
+                    signal.signal(signal.SIGALRM, prev)
+        except _Hang:
+            # "never hangs": a call of the implementation that does not return is a failure of the case, not of the harness
+            io = {'did_not_return_within_s': limit}
+            _HANGS += 1
         except Exception as e:  # harness-level failure of the impl runner
             io = {'harness_exception': f'{type(e).__name__}: {e}'}
         line = dict(c)
@@ -316,6 +350,8 @@ def evaluate(prop, cases):
         r['fatal'] = o.get('fatal')
         r['model'] = o.get('model')
         r['failed'] = o.get('failed', [])
+        if isinstance(r['impl'], dict) and 'did_not_return_within_s' in r['impl']:
+            r['failed'] = list(r['failed']) + ['the implementation did not return within %s s on this case' % r['impl']['did_not_return_within_s']]
         if isinstance(r['impl'], dict) and 'harness_exception' in r['impl']:
             # a failure of the harness itself is never a property violation
             r['fatal'] = 'harness: ' + r['impl']['harness_exception']
